@@ -766,6 +766,9 @@ func (g *gen) serviceItem(gp gap) {
 		g.t(gp, "@doc")
 		g.t(gFreeOpt, "(")
 		n := g.r.Range(1, 3)
+		if g.r.Chance(0.2) {
+			n = g.r.Range(4, 6)
+		}
 		if g.cfg.degenerate && g.r.Chance(0.2) {
 			n = 0
 			g.p.degenerate = true
